@@ -10,12 +10,16 @@
     * for those fields decode (encode x) = x (integers exactly, reals over any field, single precision
       as an idempotent `narrow`);
     * solution / extra arrays: unit inverse ∘ array-file round trip (C07) ∘ unified-file history (C08).
+    * groups (second round): IGRP window layout for every NWGMAX / NGMAXZ / child count, and the IGRP / SGRP / XGRP
+      tables regenerated from AggregateGroupData.{cpp,hpp} and rst/group.cpp agree item by item and measure by measure.
   NOT proved (correspondence / property mode only, counted in the evidence): right-hand sides emitted
-  as `opaque`, computed-index (tracer) slots, groups / MSW / UDQ / ACTIONX arrays, and the schedule
-  rebuilt from the restart file (`restart_schedule`): see design.d/C05.md.
+  as `opaque`, computed-index (tracer) slots, MSW / UDQ / ACTIONX / network arrays, and the schedule
+  rebuilt from the restart file — that one is *observed* on the real code, member-wise at every step
+  (harness/rstsched.cpp): see design.d/C05.md, Second round.
 -/
 import OpmVerif.Proofs.RstSlots
 import OpmVerif.Proofs.RstSolution
+import OpmVerif.Proofs.RstGroup
 
 namespace OpmVerif.Props.C05
 open OpmVerif.RstWindow OpmVerif.RstSlot OpmVerif.Gen.RstSlots OpmVerif.Ecl OpmVerif.Unrst
@@ -161,7 +165,60 @@ theorem solution_file_roundtrip (n : Nat) (as : List Arr) (h : List (Nat × List
       decodeFile file = .ok (allArrs (specRun [] ((n, as) :: h))) :=
   file_after_history n as h hx hh
 
+/-! ## Groups (second round): IGRP / SGRP / XGRP tables regenerated from AggregateGroupData.{cpp,hpp} and rst/group.cpp -/
+
+open OpmVerif.RstGroup OpmVerif.Gen.RstGroup in
+/-- IGRP window layout, for every NWGMAX, NGMAXZ and child count: the child list `[0, nchild)` and the named items
+`nwgmax + k` (k below the named size) never share a position and both lie inside the window of size
+`base + max(NWGMAX, NGMAXZ)` that CreateInteHead.cpp announces; reading position i of the child list gives the i-th child. -/
+theorem group_window_layout (nwgmax ngmaxz : Nat) (children : List Int) (i k : Nat)
+    (hn : children.length ≤ nwgmax) (hi : i < children.length) (hk : k < nigrpzBase) :
+    i ≠ igrpPos nwgmax k ∧ igrpPos nwgmax k < sizeNIGRPZ nwgmax ngmaxz ∧ i < sizeNIGRPZ nwgmax ngmaxz ∧
+    (childPrefix nwgmax children).lookup i = children[i]? :=
+  ⟨(igrp_prefix_disjoint nwgmax ngmaxz children.length i k hn hi hk).1, (igrp_prefix_disjoint nwgmax ngmaxz children.length i k hn hi hk).2.1,
+   (igrp_prefix_disjoint nwgmax ngmaxz children.length i k hn hi hk).2.2, childPrefix_lookup nwgmax children i hi⟩
+
+open OpmVerif.RstGroup OpmVerif.Gen.RstGroup in
+/-- Generated group tables: item names of IGRP / SGRP (its three enums together) / XGRP are injective; every named
+writer entry uses its enum's item number inside the window; reader items are inside the window; the summary-vector →
+XGRP item maps are injective, inside the window, total on the vectors the writer loops over, and the FIELD map mirrors
+the group map. -/
+theorem group_slots_injective :
+    (((genumOf "IGroup.index").map (·.2)).Nodup ∧ (sgroupItems.map (·.2)).Nodup ∧ ((genumOf "XGroup.index").map (·.2)).Nodup) ∧
+    (∀ e ∈ gwriter, e.cls = "named" →
+      ((e.slot.front = '#' ∨ (gitems e.arr).lookup e.slot = some e.idx) ∧ 0 ≤ e.idx ∧ e.idx.toNat < gwindow e.arr)) ∧
+    (∀ e ∈ greader, 0 ≤ e.idx ∧ e.idx.toNat < gwindow e.arr) ∧
+    ((∀ kv ∈ groupKeyToIndex ++ fieldKeyToIndex, 0 ≤ kv.2 ∧ kv.2.toNat < sizeNXGRPZ) ∧
+     (groupKeyToIndex.map (·.2)).Nodup ∧ (fieldKeyToIndex.map (·.2)).Nodup ∧
+     (∀ k ∈ restartGroupKeys, (groupKeyToIndex.lookup k).isSome) ∧ (∀ k ∈ restartFieldKeys, (fieldKeyToIndex.lookup k).isSome)) ∧
+    (∀ kv ∈ fieldKeyToIndex, groupKeyToIndex.lookup (String.ofList ('G' :: kv.1.toList.drop 1)) = some kv.2) :=
+  ⟨group_index_enums_injective, gwriter_slots_in_window, greader_slots_in_window, xgrp_key_maps_sound, xgrp_field_map_mirrors_group_map⟩
+
+open OpmVerif.RstGroup OpmVerif.Gen.RstGroup in
+/-- Generated group tables agree: every (writer entry, reader entry) pair on one IGRP / SGRP item is in a compatible
+class (the decode ∘ encode theorems `field_roundtrip_int` / `field_roundtrip_real` apply to class exact) except the one
+declared member (exceed_action under GCONPROD FLD), which is a real information loss; every XGRP member of RstGroup
+reads the item its summary vector is written to with that vector's measure, for groups and FIELD alike, except the four
+declared members (liquid_production_rate reads the item that holds GVPR; voidage_production_total, oil/water_production_potential
+convert with another measure than the vector has) — and those really disagree. -/
+theorem group_tables_agree :
+    (∀ p ∈ gpairs gwriter greader, gpairCls p ≠ .mismatch ∨ (gdeclaredExceptions.lookup p.2.field).isSome) ∧
+    (∀ x ∈ gdeclaredExceptions, ∃ p ∈ gpairs gwriter greader, p.2.field = x.1 ∧ gpairCls p = .mismatch) ∧
+    (∀ r ∈ greader, r.arr = "XGRP" →
+      (xcls groupKeyToIndex 'G' r = xcls fieldKeyToIndex 'F' r) ∧
+      xcls groupKeyToIndex 'G' r = (xdeclaredExceptions.lookup r.field).getD .ok) ∧
+    (∀ r ∈ greader, r.arr = "XGRP" → (groupFieldMeaning.lookup r.field).isSome) :=
+  ⟨group_pairs_classified, group_exceptions_all_occur, xgrp_members_agree, xgrp_every_member_has_meaning⟩
+
 /-! Non-vacuity. -/
+
+-- group tables: sizes of what the theorems range over, and an IGRP window with three children under NWGMAX = 5
+example : (OpmVerif.RstGroup.gpairs OpmVerif.Gen.RstGroup.gwriter OpmVerif.Gen.RstGroup.greader).length = 37 := by decide +kernel
+example : (OpmVerif.Gen.RstGroup.greader.filter fun r => r.arr = "XGRP").length = 24 := by decide +kernel
+example : (OpmVerif.RstGroup.childPrefix 5 [3, 1, 2]).lookup 1 = some 1 ∧ (OpmVerif.RstGroup.childPrefix 5 [3, 1, 2]).lookup 5 = some 3 := by decide
+example : OpmVerif.RstGroup.xcls OpmVerif.Gen.RstGroup.groupKeyToIndex 'G'
+    ⟨"group.oil_production_potential", "XGRP", "OilPrPot", 22, .toSI "liquid_surface_volume", [], "double"⟩ = .wrongMeasure := by decide +kernel
+
 
 -- three wells, window size 4: writing well 1 and reading it back; well 0 and 2 untouched
 example : readSlot 4 1 (writeWindow 4 1 (List.replicate 12 0) [(0, 7), (2, 9), (0, 8)]) 0 = some 8 := by decide
